@@ -95,6 +95,16 @@ class BufferTypestate:
     def size_test(self, cond):
         """'nonempty' / 'empty' when cond is exactly a test of the buffer's size, else None"""
         c = strip(cond)
+        if c.get("k") == "BinaryOperator" and c.get("op") in ("&&", "||"):
+            # a size test as one conjunct: the then-branch knows the buffer is not empty (the else-branch knows nothing); dually for ||
+            subs = [self.size_test(x) for x in kids(c)]
+            if c["op"] == "&&" and any(x_ in ("nonempty", "then-nonempty") for x_ in subs):
+                return "then-nonempty"
+            if c["op"] == "&&" and any(x_ in ("empty", "then-empty") for x_ in subs):
+                return "then-empty"
+            if c["op"] == "||" and any(x_ in ("empty", "else-nonempty") for x_ in subs):
+                return "else-nonempty"
+            return None
         t = self.facts.ntext(c).replace("static_cast<longint>", "").replace("std::", "")
         nm = re.escape(self.buf["name"])
         if re.match(r"^\(*(%s\.size\(\)|size\(%s\))\)*$" % (nm, nm), t) or re.match(r"^!%s\.empty\(\)$" % nm, t) or re.match(r"^\(*(%s\.size\(\)|size\(%s\))\)*(!=0|>0)$" % (nm, nm), t) or re.match(r"^0<\(*(%s\.size\(\)|size\(%s\))\)*$" % (nm, nm), t):
@@ -144,6 +154,12 @@ class BufferTypestate:
                 st_then, st_else = states - {"E"}, states & {"E"}
             elif t == "empty":
                 st_then, st_else = states & {"E"}, states - {"E"}
+            elif t == "then-nonempty":
+                st_then = states - {"E"}
+            elif t == "then-empty":
+                st_then = states & {"E"}
+            elif t == "else-nonempty":
+                st_else = states - {"E"}
             return self.exec(then, st_then) | (self.exec(els, st_else) if els is not None else st_else)
         if k in ("ForStmt", "WhileStmt", "DoStmt", "CXXForRangeStmt"):
             parts = [x for x in s["c"] if x is not None]
@@ -440,8 +456,8 @@ def closure_and_bound(facts, res, fns):
                     if b is not None and b.get("k") == "DeclRefExpr" and b.get("dk") == "Var" and len(a) == 1 and "getParentIndex" in fm.origin(a[0]):
                         pushes.append(c)
                         loop_of[id(c)] = lv_
-        if len(pushes) != 2:
-            raise AnalysisBroken("%s: %d parent-index appends in the level loop (one per grouping mode; 2 confirmed by reading)" % (fn["qname"], len(pushes)))
+        if len(pushes) not in (1, 2):
+            raise AnalysisBroken("%s: %d parent-index appends in the level loop (one per grouping mode, or one for both; 2 confirmed by reading)" % (fn["qname"], len(pushes)))
         for c in pushes:
             val = fm.origin(tbf.call_args(c)[0])
             n4 += 1
@@ -488,7 +504,8 @@ def closure_and_bound(facts, res, fns):
             gc = g["c"][-3] if len(g["c"]) >= 3 else g["c"][0]
             gt = fm.cond_origin(gc)
             B = fm.origin(tbf.call_base(c))
-            ok = gt in ("(%s.empty()||(%s.back()!=%s))" % (B, B, val), "(%s.empty()||(%s!=%s.back()))" % (B, val, B))
+            ok = gt in ["(%s||(%s.back()!=%s))" % (e_, B, val) for e_ in ("%s.empty()" % B, "(%s.size()==0)" % B, "(0==%s.size())" % B)] \
+                or gt in ["(%s||(%s!=%s.back()))" % (e_, val, B) for e_ in ("%s.empty()" % B, "(%s.size()==0)" % B, "(0==%s.size())" % B)]
             if not ok:
                 m2 = re.match(r"^\((mutable:\w+)!=(.*)\)$", gt)
                 prev = None
@@ -533,36 +550,50 @@ def closure_and_bound(facts, res, fns):
             if i.get("k") == "IfStmt":
                 c0 = i["c"][-3] if len(i["c"]) >= 3 else i["c"][0]
                 o = fm.origin(c0).replace(" ", "")
-                if "size" in o and ("==" in o or ">=" in o) and any(tbf.callee_name(x) == "emplace_back" for x in walk(i) if x.get("k") in ("CallExpr", "CXXMemberCallExpr")):
+                if "size" in o and ("==" in o.replace("size()==0", "") or ">=" in o or "<=" in o) and any(tbf.callee_name(x) == "emplace_back" for x in walk(i) if x.get("k") in ("CallExpr", "CXXMemberCallExpr")):
                     thr.append((i, o))
         if len(thr) != 1:
             raise AnalysisBroken("%s: %d size-threshold flushes in the level loop (1 confirmed by reading)" % (fn["qname"], len(thr)))
         i, o = thr[0]
         n3 += 1
-        sp = [c for c in walk(body) if c.get("k") in ("CallExpr", "CXXMemberCallExpr") and tbf.callee_name(c) == "splitInGroups"]
-        if len(sp) != 1:
-            raise AnalysisBroken("%s: %d splitInGroups calls" % (fn["qname"], len(sp)))
-        so = fm.origin(tbf.call_args(sp[0])[0])
-        res.instance(R3, "%s threshold" % fn["qname"], facts.loc(i), "%s ; particle groups cut by %s" % (o[:120], so))
-        mt = re.match(r"^\(+(.*)\.size\(\)\)*(==|>=)(.*?)\)+$", o) or re.match(r"^\(+(?:std::)?size\((.*?)\)\)*(==|>=)(.*?)\)+$", o)
-        if not mt:
-            raise AnalysisBroken("%s: size-threshold condition `%s` not recognised" % (fn["qname"], o[:100]))
-        if mt.group(3) != so:
-            res.violation(R3, tbf.rel(facts.path_of(i)), fn["qname"], "threshold", i["l"][1], "a cell group is emitted when its size reaches `%s`, particle groups are cut by `%s`: cell groups exceed (or undershoot) the requested block size" % (mt.group(3)[:80], so))
-        # that quantity is the member the constructor sets from its block-size argument
-        mem = re.match(r"^this\.(\w+)$", so)
-        ct = ctor_of(facts, "TbfTree", 2)[0]
-        ini = [x for x in ct.get("inits", []) if mem and x.get("member") == mem.group(1)]
-        if not mem or len(ini) != 1:
-            raise AnalysisBroken("%s: the block size `%s` is not a member initialised by the constructor" % (fn["qname"], so))
-        arg = [p["name"] for p in ct["params"] if "long" in p["t"] or "int" in p["t"]]
-        init_txt = " ".join(facts.ntext(c) for c in ini[0].get("c", []) if c)
-        if not arg or arg[0] not in init_txt:
-            res.violation(R3, tbf.rel(facts.path_of(ct)), ct["qname"], "block-size-member", ct["l"][1], "the tree's block size member is initialised from `%s`, not from the constructor's block-size argument" % init_txt[:100])
-        # the threshold must sit inside the branch that appended (so that it is evaluated after each append)
+        # the threshold must sit inside the branch that appended (so that it is evaluated after EACH append): a test made once per child
+        # group lets the buffer grow by every new parent of that group first - groups of up to 2B-1 cells
         inside = any(any(x is i for x in walk(g2)) for lv_ in lvl for g2 in walk(lv_) if g2.get("k") == "IfStmt" and g2 is not i and any(x in pushes for x in walk(g2)))
         if not inside:
-            res.violation(R3, tbf.rel(facts.path_of(i)), fn["qname"], "threshold-place", i["l"][1], "the size test is not evaluated after each append")
+            res.violation(R3, tbf.rel(facts.path_of(i)), fn["qname"], "threshold-place", i["l"][1],
+                          "the size test `%s` is not evaluated after each append of a parent index (it sits outside the branch that appends): in block mode the buffer keeps receiving the remaining new parents of the child group being visited and the emitted group exceeds the requested block size" % o[:90])
+        if inside:
+            sp = [c for c in walk(body) if c.get("k") in ("CallExpr", "CXXMemberCallExpr") and tbf.callee_name(c) == "splitInGroups"]
+            if len(sp) != 1:
+                raise AnalysisBroken("%s: %d splitInGroups calls" % (fn["qname"], len(sp)))
+            so = fm.origin(tbf.call_args(sp[0])[0])
+            res.instance(R3, "%s threshold" % fn["qname"], facts.loc(i), "%s ; particle groups cut by %s" % (o[:120], so))
+            mt = re.match(r"^\(+(.*)\.size\(\)\)*(==|>=)(.*?)\)+$", o) or re.match(r"^\(+(?:std::)?size\((.*?)\)\)*(==|>=)(.*?)\)+$", o)
+            if not mt:
+                # the comparison as one conjunct of a larger condition, either way round
+                m5 = re.search(r"([\w\.:]+)\.size\(\)\)*(==|>=)([\w\.:]+)", o) or re.search(r"size\(([\w\.:]+)\)\)*(==|>=)([\w\.:]+)", o)
+                m6 = re.search(r"([\w\.:]+)(==|<=)\(*(?:[\w\.:]+\.size\(\)|(?:std::)?size\([\w\.:]+\))", o)
+                if m5:
+                    mt = m5
+                elif m6:
+                    class _M:      # same shape as a match object: group(3) is the bound
+                        def __init__(self, b): self.b = b
+                        def group(self, k): return self.b if k == 3 else None
+                    mt = _M(m6.group(1))
+            if not mt:
+                raise AnalysisBroken("%s: size-threshold condition `%s` not recognised" % (fn["qname"], o[:100]))
+            if mt.group(3) != so:
+                res.violation(R3, tbf.rel(facts.path_of(i)), fn["qname"], "threshold", i["l"][1], "a cell group is emitted when its size reaches `%s`, particle groups are cut by `%s`: cell groups exceed (or undershoot) the requested block size" % (mt.group(3)[:80], so))
+            # that quantity is the member the constructor sets from its block-size argument
+            mem = re.match(r"^this\.(\w+)$", so)
+            ct = ctor_of(facts, "TbfTree", 2)[0]
+            ini = [x for x in ct.get("inits", []) if mem and x.get("member") == mem.group(1)]
+            if not mem or len(ini) != 1:
+                raise AnalysisBroken("%s: the block size `%s` is not a member initialised by the constructor" % (fn["qname"], so))
+            arg = [p["name"] for p in ct["params"] if "long" in p["t"] or "int" in p["t"]]
+            init_txt = " ".join(facts.ntext(c) for c in ini[0].get("c", []) if c)
+            if not arg or arg[0] not in init_txt:
+                res.violation(R3, tbf.rel(facts.path_of(ct)), ct["qname"], "block-size-member", ct["l"][1], "the tree's block size member is initialised from `%s`, not from the constructor's block-size argument" % init_txt[:100])
         n3 += 1
         # leaf level: one cell group per particle group, buffer slot i <- leaf i of that group over [0, its number of leaves), emitted at level H-1
         import sibling
@@ -598,7 +629,7 @@ def closure_and_bound(facts, res, fns):
             else:
                 raise AnalysisBroken("%s: emission of the leaf cell groups not recognised" % fn["qname"])
     res.floor(R3, n3, 4, "block-size sites")
-    res.floor(R4, n4, 8, "closure sites")
+    res.floor(R4, n4, 6, "closure sites")
 
 
 def isym(fm, n, env):
